@@ -141,7 +141,26 @@ def gen_defaults(rng, names, penv):
     # defaults' allow/block lists are extended (not replaced) by the module's own
     if CTXNAMES and pick(rng, 0.2): d["blocklist"] = rng.sample(CTXNAMES, rng.randint(1, min(2, len(CTXNAMES))))
     if CTXNAMES and pick(rng, 0.15): d["allowlist"] = rng.sample(CTXNAMES, rng.randint(1, min(2, len(CTXNAMES))))
+    # a default context: modules/apps that name none of their own live there
+    if CTXNAMES and pick(rng, 0.2): d["context"] = rng.choice(CTXNAMES)
     return d
+
+def add_removals(rng, d):
+    """modules / apps of a document whose defaults bring dependency lists: now and then a module removes an
+    inherited entry with '-name' (a plain name removes the hard, the optional '?name' and a conditional form alike)"""
+    for key, dk in (("modules", "module"), ("apps", "app")):
+        dflt = (d.get("defaults") or {}).get(dk) or {}
+        for field in ("selects", "depends", "uses"):
+            names = []
+            for e in dflt.get(field) or []:
+                if isinstance(e, str): names.append(e.lstrip("?"))
+                else: names += [x.lstrip("?") for l in e.values() for x in l]
+            if not names: continue
+            for m in d.get(key) or []:
+                if pick(rng, 0.35):
+                    own = m.setdefault(field, [])
+                    own.insert(rng.randint(0, len(own)), "-" + rng.choice(names))
+                    if pick(rng, 0.2): own.append("-" + rng.choice(["m0", "nosuch"]))      # removes nothing, or something of its own
 
 CTXNAMES = []
 
@@ -245,6 +264,7 @@ def gen_project(rng, size="small", features=None, focus=None):
             doc["defaults"] = {}
             if pick(rng, 0.8): doc["defaults"]["module"] = gen_defaults(rng, names, penv)
             if pick(rng, 0.5): doc["defaults"]["app"] = gen_defaults(rng, names, penv)
+            add_removals(rng, doc)
     else:
         buckets = {"root": ([], []), "doc2": ([], []), "sub": ([], []), "deep": ([], []), "inc": ([], [])}
         keys = list(buckets)
@@ -257,6 +277,7 @@ def gen_project(rng, size="small", features=None, focus=None):
                 d["defaults"] = {}
                 if pick(rng, 0.8): d["defaults"]["module"] = gen_defaults(rng, names, penv)
                 if pick(rng, 0.5): d["defaults"]["app"] = gen_defaults(rng, names, penv)
+                add_removals(rng, d)
             return d
         fill(doc, "root")
         doc["subdirs"] = ["sub"]
@@ -275,7 +296,7 @@ def gen_project(rng, size="small", features=None, focus=None):
     cli = {}
     if pick(rng, 0.3): cli["select"] = [("?" if pick(rng, 0.3) else "") + rng.choice(names) for _ in range(rng.randint(1, 2))]
     if pick(rng, 0.15): cli["disable"] = [rng.choice(names) for _ in range(rng.randint(1, 2))]
-    if pick(rng, 0.7 if MULTIKEY else 0.25): cli["define"] = [rng.choice(VARS[:3]) + rng.choice(["=", "+="]) + rng.choice(["d1", "d 2", "${X}", "", "-Wl,-Map=out.map", "a,b", "k=v,w"]) for _ in range(rng.randint(1, 3))]
+    if pick(rng, 0.7 if MULTIKEY else 0.25): cli["define"] = [rng.choice(VARS[:3]) + rng.choice(["=", "+="]) + rng.choice(["d1", "d 2", "${X}", "", "-Wl,-Map=out.map", "a,b", "k=v,w", "two  blanks", " lead"]) for _ in range(rng.randint(1, 3))]
     if pick(rng, 0.15): cli["builders"] = rng.sample([b["name"] for b in builders], rng.randint(1, len(builders)))
     if pick(rng, 0.15): cli["apps"] = rng.sample([a["name"] for a in apps], rng.randint(1, len(apps)))
     if layout and pick(rng, 0.3):
